@@ -63,4 +63,31 @@ def inUse (u : List Nat) : Option (List Nat) → List Nat
 def contacted (maxC : Nat) (s : List Nat) (conc : Int) (r : Nat) : List Nat :=
   (pick s.length r (clamp maxC conc)).map (fun p => s.getD p 0)
 
+/-! ## what stands between a helper and the upstream of its position (`upstreamWrapper.ExchangeContext`) -/
+
+/-- A per-upstream wrapper seen as a gate in front of the upstream. `cap = none`: no gate at all (one
+unconditional call of the upstream - what the regenerated fact `c14WrapperTransparent` says of the source).
+`cap = some n`: at most `n` slots; `releaseOnFail` says whether a failed exchange gives its slot back. -/
+structure Wrap where
+  cap : Option Nat
+  releaseOnFail : Bool
+  deriving DecidableEq, Repr
+
+/-- Exchanges issued one after the other through one wrapper (nothing in flight concurrently); `true` = the
+upstream's exchange succeeds, `false` = it fails. Result: slots held at the end, and for every exchange whether
+it was handed to the upstream at all (an exchange that finds no slot waits for its timeout and is never sent). -/
+def Wrap.run (w : Wrap) : Nat → List Bool → Nat × List Bool
+  | held, [] => (held, [])
+  | held, ok :: rest =>
+    let admitted := match w.cap with
+      | none => true
+      | some n => decide (held < n)
+    let held' := if admitted && !(ok || w.releaseOnFail) then held + 1 else held
+    let (h, adm) := w.run held' rest
+    (h, admitted :: adm)
+
+/-- the wrapper of the source, as far as the regenerated fact describes it -/
+def wrapOf (transparent : Bool) : Option Wrap :=
+  if transparent then some ⟨none, true⟩ else none
+
 end Model.C14
